@@ -953,6 +953,207 @@ Definition sext (n x : Z) : Z := if x <? 2 ^ (n - 1) then x else x - 2 ^ n.
 """
 
 
+
+# ------------------------------------------------------------------------------------------------
+# the count protocol (RcInner) as a table of expressions
+
+def _split_args(s):
+    parts, depth, cur = [], 0, ''
+    for ch in s:
+        if ch in '([{':
+            depth += 1
+        elif ch in ')]}':
+            depth -= 1
+        if ch == ',' and depth == 0:
+            parts.append(cur)
+            cur = ''
+        else:
+            cur += ch
+    if cur.strip():
+        parts.append(cur)
+    return [x.strip() for x in parts]
+
+
+def _strip_macros(body):
+    """remove the statements `vy!(..);` `debug_assert!(..);` `debug_assert_eq!(..);` (instrumentation / assertions)"""
+    out = body
+    while True:
+        m = re.search(r"\b(?:vy|debug_assert|debug_assert_eq)!\s*\(", out)
+        if not m:
+            return out
+        j = find_matching(out, m.end() - 1, '(', ')')
+        k = j + 1
+        while k < len(out) and out[k] in ' \t':
+            k += 1
+        if k < len(out) and out[k] == ';':
+            k += 1
+        out = out[:m.start()] + out[k:]
+
+
+ATOMIC_RE = re.compile(r"(?:\(\s*\*\s*\w+\s*\)|\b\w+)\s*\.\s*state\s*\.\s*(load|fetch_add|fetch_sub|compare_exchange)\s*\(")
+
+
+def proto_scan(body):
+    """returns (text with atomic accesses replaced by LOADED/FETCHED/CASRES, accesses in textual order)"""
+    acc = []
+    out = body
+    pos = 0
+    while True:
+        m = ATOMIC_RE.search(out, pos)
+        if not m:
+            break
+        j = find_matching(out, m.end() - 1, '(', ')')
+        args = _split_args(out[m.end():j])
+        kind = m.group(1)
+        if kind == 'load':
+            rep = 'LOADED'
+        elif kind in ('fetch_add', 'fetch_sub'):
+            acc.append((kind, args[0]))
+            rep = 'FETCHED'
+        else:
+            acc.append(('cas', args[0], args[1]))
+            rep = 'CASRES'
+        out = out[:m.start()] + rep + out[j + 1:]
+        pos = m.start() + len(rep)
+    out = re.sub(r"CASRES\s*\.\s*is_err\s*\(\s*\)", "CASFAILED", out)
+    out = re.sub(r"CASRES\s*\.\s*is_ok\s*\(\s*\)", "CASOK", out)
+    return out, acc
+
+
+def proto_lets(text):
+    """local `let NAME = EXPR;` bindings (EXPR may contain braces): name -> [expr sources]"""
+    lets = {}
+    for m in re.finditer(r"\blet\s+(?:mut\s+)?(\w+)\s*(?::\s*[^=;]+?)?=(?!=)", text):
+        depth, i = 0, m.end()
+        while i < len(text):
+            ch = text[i]
+            if ch in '([{':
+                depth += 1
+            elif ch in ')]}':
+                depth -= 1
+                if depth < 0:
+                    break
+            elif ch == ';' and depth == 0:
+                break
+            i += 1
+        lets.setdefault(m.group(1), []).append(text[m.end():i].strip())
+    return lets
+
+
+def proto_conds(text):
+    """conditions of `if` / `while` (not `if let`), and values of `break EXPR;`, in textual order"""
+    out = []
+    for m in re.finditer(r"\b(if|while)\s+(?!let\b)|\bbreak\s+(?=[^;\s])", text):
+        i = m.end()
+        depth = 0
+        j = i
+        stop = ';' if m.group(0).startswith('break') else '{'
+        while j < len(text):
+            ch = text[j]
+            if ch in '([':
+                depth += 1
+            elif ch in ')]':
+                depth -= 1
+            elif ch == stop and depth == 0:
+                break
+            j += 1
+        src = " ".join(text[i:j].split())
+        out.append(('break' if stop == ';' else 'cond', src))
+    return out
+
+
+def gen_proto(utils, em_state, st_fns):
+    fns = {}
+    for hdr in (r"impl<T>\s+RcInner<T>", r"impl<T:\s*RcObject>\s+RcInner<T>"):
+        fns.update(get_fns(get_impl(utils, hdr)))
+    free = get_fns(cut_impls(utils))
+    if 'dispose_general_node' not in free:
+        raise TranslateError("dispose_general_node not found")
+    fns['dispose_general_node'] = free['dispose_general_node']
+    sigs = {n: (v[0], v[1]) for n, v in st_fns.items()}
+    s = HEADER % "src/utils.rs (RcInner: the count protocol, function by function)" + "Require Import Params StateW.\n\n"
+    s += ("(* per function, in textual order: operands of fetch_add/fetch_sub, (expected, new) of compare_exchange,\n"
+          "   conditions of if/while and values of `break`, counts passed to nested decrement_strong calls.\n"
+          "   LOADED / FETCHED stand for the word returned by an atomic load / fetch_add / fetch_sub. *)\n\n")
+    SPEC = [
+        # fn, short name, typed variables that may occur (in binder order)
+        ('increment_strong', 'incs', [('val', 'Self')]),
+        ('try_dealloc', 'tde', [('LOADED', 'u64')]),
+        ('increment_weak', 'incw', [('old', 'Self'), ('count', 'u32'), ('FETCHED', 'u64')]),
+        ('decrement_weak', 'decw', [('FETCHED', 'u64')]),
+        ('is_not_destructed', 'isnd', [('old', 'Self'), ('epoch', 'usize')]),
+        ('decrement_strong', 'decs', [('curr', 'Self'), ('count', 'u32'), ('epoch', 'usize')]),
+        ('try_destruct', 'td', [('old', 'Self')]),
+        ('dispose_general_node', 'disp', [('state', 'Self'), ('cnt_curr', 'Self'), ('next_epoch', 'isize'), ('next_cnt', 'Self'),
+                                          ('depth', 'usize'), ('LOADED', 'u64'), ('CASFAILED', 'bool'), ('CASOK', 'bool')]),
+    ]
+    for fname, short, vars_ in SPEC:
+        if fname not in fns:
+            raise TranslateError("RcInner::%s not found" % fname)
+        body = _strip_macros(fns[fname][2])
+        text, acc = proto_scan(body)
+        text = text.replace('State::from_raw', 'Self::from_raw')
+        em = Emitter(dict(em_state.consts), sigs, 'u64', ['inner'])
+        em.all_consts = dict(em_state.all_consts)
+        em.const_values = dict(em_state.const_values)
+        em.bodies.update(st_fns)
+        em.defined = set(st_fns)
+        em.emitted = set(st_fns)
+        env = {n: t for n, t in vars_}
+        known = set(env)
+        for name, exprs in proto_lets(text).items():
+            if name not in known and len(exprs) == 1:
+                em.lazy_lets[name] = exprs[0]
+        binders = " ".join("(%s : %s)" % (n, 'bool' if t == 'bool' else 'Z') for n, t in vars_)
+
+        def tr(src, expected):
+            src = src.replace('State::from_raw', 'Self::from_raw')
+            v, ty = em.emit(P(tokenize(src)).parse_expr(), env, expected)
+            if ty == 'Self' and expected == 'u64':
+                pass
+            return v
+
+        adds = [tr(a[1], 'u64') for a in acc if a[0] == 'fetch_add']
+        subs = [tr(a[1], 'u64') for a in acc if a[0] == 'fetch_sub']
+        cass = ["(%s, %s)" % (tr(a[1], 'u64'), tr(a[2], 'u64')) for a in acc if a[0] == 'cas']
+        conds, breaks, skipped = [], [], []
+        for kind, src in proto_conds(text):
+            if re.fullmatch(r"\w+", src) and src not in env:
+                skipped.append(src)         # a local that names the result of a loop (`if hit_zero`)
+                continue
+            try:
+                v = tr(src, 'bool')
+            except TranslateError as ex:
+                if fname == 'dispose_general_node':
+                    skipped.append(src)     # the Modular decisions of the cascade are in DisposeW.v
+                    continue
+                raise TranslateError("%s: condition `%s`: %s" % (fname, src, ex))
+            (breaks if kind == 'break' else conds).append(v)
+        redecs = []
+        for m in re.finditer(r"\bdecrement_strong\s*\(", text):
+            j = find_matching(text, m.end() - 1, '(', ')')
+            a = _split_args(text[m.end():j])
+            if len(a) >= 2 and not re.search(r"\bfn\s*$", text[:m.start()]):
+                redecs.append(tr(a[1], 'u32'))
+        rec = []
+        for m in re.finditer(r"\bdispose_general_node\s*\(", text):
+            j = find_matching(text, m.end() - 1, '(', ')')
+            a = _split_args(text[m.end():j])
+            if len(a) >= 2:
+                rec.append(tr(a[1], 'usize'))
+        s += "(* ---- %s *)\n" % fname
+        s += "Definition P_%s_adds %s : list Z := [%s].\n" % (short, binders, "; ".join(adds))
+        s += "Definition P_%s_subs %s : list Z := [%s].\n" % (short, binders, "; ".join(subs))
+        s += "Definition P_%s_cas %s : list (Z * Z) := [%s].\n" % (short, binders, "; ".join(cass))
+        s += "Definition P_%s_conds %s : list bool := [%s].\n" % (short, binders, "; ".join(conds))
+        s += "Definition P_%s_breaks %s : list bool := [%s].\n" % (short, binders, "; ".join(breaks))
+        s += "Definition P_%s_redecs %s : list Z := [%s].\n" % (short, binders, "; ".join(redecs))
+        if fname == 'dispose_general_node':
+            s += "Definition P_%s_depths %s : list Z := [%s].\n" % (short, binders, "; ".join(rec))
+        s += "(* not translated here: %s *)\n\n" % ("; ".join(skipped) if skipped else "-")
+    return s
+
+
 def gen(repo):
     files = {}
     failed = {}
@@ -1122,6 +1323,14 @@ def gen(repo):
         failed['DisposeW.v'] = str(ex)
     except (NameError, KeyError, UnboundLocalError) as ex:
         failed['DisposeW.v'] = 'depends on a part of the source that could not be translated (%s)' % ex
+    # ---------------- ProtoW.v : the count protocol of RcInner (utils.rs) function by function: operands of every
+    # fetch_add / fetch_sub, (expected, new) of every compare_exchange, every branch condition, in textual order.
+    try:
+        files['ProtoW.v'] = gen_proto(utils, em, st_fns)
+    except TranslateError as ex:
+        failed['ProtoW.v'] = str(ex)
+    except (NameError, KeyError, UnboundLocalError) as ex:
+        failed['ProtoW.v'] = 'depends on a part of the source that could not be translated (%s)' % ex
     # ---------------- TaggedW.v
     try:
         tg_fns = get_fns(get_impl(pointers, r"impl<T>\s+Tagged<T>"))
